@@ -40,6 +40,16 @@ def removable_keys(ver, full):
     return out
 
 
+_HELD = []  # the documents of the vector judged before this one in this process: (case, options, live document, snapshot)
+
+
+def _snapshot(d):
+    try:
+        return [(k, repr(v)) for k, v in d.items()]
+    except Exception:
+        return None
+
+
 def check_vector(P, ver, s, copies=False):
     P.remember({"ver": ver, "vector": s})
     L = lib()
@@ -58,6 +68,7 @@ def check_vector(P, ver, s, copies=False):
         P.violation("scores", "C11:v%s:scores-raises" % ver, case, error=repr(sc))
         return
     res = {}
+    snaps = {}
     for sort in (False, True):
         for minimal in (False, True):
             ok, d = obs.call(o.as_json, sort=sort, minimal=minimal)
@@ -69,6 +80,22 @@ def check_vector(P, ver, s, copies=False):
                 P.violation("identity", "C11:v%s:as_json-not-a-dict" % ver, case, observed=repr(type(d)))
                 return
             res[(sort, minimal)] = d
+            snaps[(sort, minimal)] = _snapshot(d)
+    # a document handed out stays what it was: neither the later calls on this object nor the documents of the NEXT
+    # vector constructed in this process may change it (it would then describe another input than the one it was asked for)
+    P.ev("documents-stay-as-handed-out")
+    for key, d in res.items():
+        if snaps[key] is not None and _snapshot(d) != snaps[key]:
+            P.violation("identity", "C11:v%s:document-changed-by-a-later-call-on-the-same-object" % ver, dict(case, sort=key[0], minimal=key[1]),
+                        handed_out=repr(snaps[key])[:300], now=repr(_snapshot(d))[:300])
+    for (pcase, pkey, pdoc, psnap) in _HELD:
+        if psnap is not None and _snapshot(pdoc) != psnap:
+            P.violation("identity", "C11:v%s:document-of-an-earlier-object-changed-by-later-calls-on-another-object" % pcase["ver"],
+                        dict(pcase, sort=pkey[0], minimal=pkey[1], then_constructed=[ver, s]), handed_out=repr(psnap)[:300],
+                        now=repr(_snapshot(pdoc))[:300])
+            break
+    del _HELD[:]
+    _HELD.extend((case, key, d, _snapshot(d)) for key, d in res.items())
     for (sort, minimal), d in res.items():
         c = dict(case, sort=sort, minimal=minimal)
         judge_single(P, ver, s, prefix, m, eff, sc, d, sort, minimal, c)
